@@ -228,6 +228,27 @@ def staticOpCmp (st : St) (srcToks argToks outToks : List String) : String :=
      | _, _, _, _ => "skip unresolved-input")
   | _, _ => "skip bad-record"
 
+def parseFClass (t : String) : Option FClass :=
+  if t == "nan" then some .nan else if t == "pinf" then some .pinf else if t == "ninf" then some .ninf
+  else if t.startsWith "f" then ((t.drop 1).toString.toInt?).map .fin else none
+
+/-- XF | <kind> <form> <left class> | <op> <right class, or err> | <out> — Compare on a float source with the IEEE
+special values (NaN, ±Inf), which the value model proper cannot name: `staticCmpSpecial`. -/
+def staticOpCmpSpecial (st : St) (srcToks argToks outToks : List String) : String :=
+  match srcToks, argToks, outToks with
+  | [_, _, lTok], [opTok, rTok], [outTok] =>
+    (match parseFClass lTok, opTok.toInt?, parseCmpOut outTok with
+     | some l, some op, some impl =>
+       let r : Option (Option FClass) := if rTok == "err" then some none else (parseFClass rTok).map some
+       (match r with
+        | some r =>
+          let m := staticCmpSpecial op l r
+          if st.mode == "nopanic" then (if impl == .panic then "dev-viol " ++ showCmpOut m else "agree")
+          else if impl == m then "agree" else "dev-viol " ++ showCmpOut m
+        | none => "skip unresolved-input")
+     | _, _, _ => "skip unresolved-input")
+  | _, _, _ => "skip bad-record"
+
 /-- XD | <src l> | <src r> | <out(l,r)> <out(r,l)> -/
 def staticOpDeq (st : St) (lToks rToks outToks : List String) : String :=
   match outToks with
